@@ -86,6 +86,9 @@ def install(eng):
     eng.setattr_hooks[('TagLibrary', '*')] = ns_setattr
     eng.attr_hooks[('global:Tags', '_module_library')] = tags_module_library
     eng.builtin_hooks['hasattr'] = bi_hasattr
+    eng.builtin_hooks['dict'] = bi_dict
+    eng._products = {}
+    eng._star_arg = None
     eng.attr_hooks[('module:Tags', '*')] = tags_module_attr
     eng.attr_hooks[('Logger', '*')] = None
     for k in [k for k, v in eng.attr_hooks.items() if v is None]:
@@ -257,6 +260,103 @@ def ext_isinstance(eng, selfv, args, kwargs):
     return VBool(f(v.term))
 
 
+# ------------------------------------------------------------------ itertools.product / dict (assumed, C14)
+PRODUCT = ('itertools.product(*lists): a sequence of tuples, tuple i taking from list j the element with index '
+           'digit(i, j) where i -> digits is the mixed-radix bijection onto the index box, first list slowest '
+           '(every combination exactly once, lexicographic); dict(pairs) builds a new dictionary with exactly those keys')
+
+
+def ext_product(eng, selfv, args, kwargs, star=None):
+    eng.used_assumption(PRODUCT)
+    lists = eng._star_arg
+    if lists is None:
+        raise Unsupported('itertools.product without *lists')
+    n = eng.llen(lists)
+    eng.ctx.n += 1
+    tag = eng.ctx.n
+    R = eng.alloc(ty.parse('list[any]'))
+    plen = eng.fresh('product_len', I)
+    dg = z3.Function(f'digit!{tag}', I, I, I)
+    tup = eng.fresh('product_items', z3.ArraySort(I, I))
+    i, j = z3.Int('pi'), z3.Int('pj')
+    inner_len = lambda jj: z3.Select(eng.arr(('llen', lists.typ.elem.key)), z3.Select(eng.lel_arrays(lists)[0], jj))
+    eng.fact(plen >= 0)
+    eng.fact(z3.Implies(n == 0, plen == 1))
+    eng.fact(z3.ForAll([j], z3.Implies(z3.And(0 <= j, j < n, inner_len(j) == 0), plen == 0)))
+    eng.fact(z3.Implies(z3.ForAll([j], z3.Implies(z3.And(0 <= j, j < n), inner_len(j) >= 1)), plen >= 1))
+    pl_j = z3.Select(eng.lel_arrays(lists)[0], j)
+    eng.fact(z3.ForAll([i, j], z3.Implies(z3.And(0 <= i, i < plen, 0 <= j, j < n),
+                                          z3.And(0 <= dg(i, j), dg(i, j) < inner_len(j))),
+                       patterns=[z3.MultiPattern(z3.Select(tup, i), pl_j)]))
+    eng.list_set_all(R, plen, [tup])
+    eng._products[tag] = dict(lists=lists, digit=dg, R=R, tup=tup, n=n, state=eng.S.copy())
+    R.ext_kind = None
+    R.product_tag = tag
+    return R
+
+
+def bi_dict(eng, args, kwargs, node):
+    """dict(t) for t an element of an itertools.product(...) sequence: an abstract record value."""
+    eng.used_assumption(PRODUCT)
+    if len(args) != 1 or not (isinstance(args[0], VRef) and args[0].typ == ty.ANY):
+        raise Unsupported('dict(...) of this argument')
+    t = args[0]
+    prod = None
+    for tag, p in eng._products.items():
+        prod = p          # the element must come from the (single) product of this path
+    if prod is None:
+        raise Unsupported('dict(x): x is not an element of an itertools.product sequence')
+    f = z3.Function('dict_of', I, I)
+    d = VRef(f(t.term), ty.ANY)
+    rec_has = z3.Function('rec_has', I, I, B)
+    rec_get = z3.Function('rec_get', I, I, I)
+    kidx = z3.Function('rec_keyidx', I, I, I)
+    lists, dg, R, tup, n, st = prod['lists'], prod['digit'], prod['R'], prod['tup'], prod['n'], prod['state']
+    inner_t = lists.typ.elem
+    i, j, k = z3.Int('di'), z3.Int('dj'), z3.Int('dk')
+    lst_j = z3.Select(eng.lel_arrays(VRef(lists.term, lists.typ, st))[0], j)
+    inner = VRef(lst_j, inner_t, st)
+    arrs = eng.lel_arrays(inner)                     # slots of tuple[str, any]: [key, value]
+    plen = eng.llen(VRef(R.term, R.typ, st))
+    key_ij = z3.Select(arrs[0], dg(i, j))
+    val_ij = z3.Select(arrs[1], dg(i, j))
+    drec = f(z3.Select(tup, i))
+    # the record of tuple i has, for every list j, the key of its chosen pair ...
+    pat = [z3.MultiPattern(z3.Select(tup, i), lst_j)]
+    eng.fact(z3.ForAll([i, j], z3.Implies(z3.And(0 <= i, i < plen, 0 <= j, j < n), rec_has(drec, key_ij)),
+                       patterns=pat))
+    # ... whose value is the one of the last pair carrying that key (dict(pairs): later pairs win)
+    win = z3.Function('rec_winner', I, I, I)
+    wj = win(z3.Select(tup, i), j)
+    lst_w = z3.Select(eng.lel_arrays(VRef(lists.term, lists.typ, st))[0], wj)
+    arrs_w = eng.lel_arrays(VRef(lst_w, inner_t, st))
+    eng.fact(z3.ForAll([i, j], z3.Implies(z3.And(0 <= i, i < plen, 0 <= j, j < n),
+                                          z3.And(j <= wj, wj < n, z3.Select(arrs_w[0], dg(i, wj)) == key_ij,
+                                                 rec_get(drec, key_ij) == z3.Select(arrs_w[1], dg(i, wj)))),
+                       patterns=pat))
+    # ... and no other key
+    kj = kidx(drec, k)
+    lst_kj = z3.Select(eng.lel_arrays(VRef(lists.term, lists.typ, st))[0], kj)
+    key_kj = z3.Select(eng.lel_arrays(VRef(lst_kj, inner_t, st))[0], dg(i, kj))
+    eng.fact(z3.ForAll([i, k], z3.Implies(z3.And(0 <= i, i < plen, rec_has(drec, k)),
+                                          z3.And(0 <= kj, kj < n, key_kj == k))))
+    return d
+
+
+def _ext_agg(name):
+    def h(eng, selfv, args, kwargs):
+        eng.used_assumption('min / max / sum / statistics.mean / statistics.variance are the mathematical aggregates '
+                            'of the given sequence (uninterpreted here: only the dispatch is verified)')
+        lst = args[0]
+        f = z3.Function('agg_' + name, I, eng.ctx.num)
+        return VNum(f(lst.term))
+    return h
+
+
+def ext_partial(eng, selfv, args, kwargs):
+    return VFunc('partial', func=args[0], args=list(args[1:]), kwargs=dict(kwargs))
+
+
 def ext_any_getitem(eng, obj, args, kwargs):
     eng.used_assumption('indexing a user-supplied table is a pure function of (table, index)')
     k = args[0]
@@ -290,6 +390,10 @@ EXTERNALS = {
     'numpy.copy': ext_np_copy,
     'isinstance': ext_isinstance,
     'any.__call__': ext_any_call,
+    'itertools.product': ext_product,
+    'min': _ext_agg('min'), 'max': _ext_agg('max'), 'sum': _ext_agg('sum'),
+    'statistics.mean': _ext_agg('mean'), 'statistics.variance': _ext_agg('variance'),
+    'functools.partial': ext_partial,
     'any.__getitem__': ext_any_getitem,
     'Random.choice': ext_random_choice,
     'Random.shuffle': ext_random_shuffle,
